@@ -181,6 +181,10 @@ pub fn run(tier: Tier) -> Outcome {
         let (report, recheck) = run_world(&h, &lim, None);
         runs.push(HistRun { world: format!("sweep:{wn}"), report, recheck });
     }
+    let stale_worlds: &[&str] = match tier {
+        Tier::Quick => &["A", "B", "C", "D"],
+        Tier::Thorough => &["A", "B", "C", "D"],
+    };
     let rt_worlds: &[&str] = match tier {
         Tier::Quick => &["A", "B"],
         Tier::Thorough => &["A", "B", "C", "D", "E"],
@@ -198,14 +202,14 @@ pub fn run(tier: Tier) -> Outcome {
         let (report, recheck) = run_world(&h, &lim, Some(depth - 2));
         runs.push(HistRun { world: format!("rt:{wn}"), report, recheck });
     }
-    for wn in rt_worlds {
+    for wn in stale_worlds {
         // world E (0- and 18-decimal mints funded with tiny balances) exists for the rounding sweeps; the
         // lending roots of the stale model cannot be built in it
         if *wn == "E" || !want(&format!("stale:{wn}")) {
             continue;
         }
         let h = stale_model(tier, wn);
-        let d = if tier == Tier::Quick { 2 } else { 3 };
+        let d = if tier == Tier::Quick { 3 } else { 4 };
         let lim = Limits { max_depth: d, max_wall_s: if tier == Tier::Quick { 25.0 } else { 900.0 }, ..Default::default() };
         let (report, recheck) = run_world(&h, &lim, Some(d - 1));
         runs.push(HistRun { world: format!("stale:{wn}"), report, recheck });
@@ -215,7 +219,7 @@ pub fn run(tier: Tier) -> Outcome {
         runs,
         &["deposit:ok:wealth_checked", "withdraw:ok:wealth_checked", "borrow:ok:wealth_checked", "repay:ok:wealth_checked", "withdraw_all:ok:wealth_checked", "repay_all:ok:wealth_checked"],
         &["withdraw_all:ok:user_lost_rounding", "repay_all:ok:user_lost_rounding"],
-        "(a) sweep: from forged-share-value roots (1, 1+ulp, 4/3, 0.37, 255.9, ...) in worlds with 0/6/8/9/18-decimal mints and three transfer-fee settings, every deposit/withdraw/withdraw_all/borrow/repay/repay_all with amounts {1,2,3, k*ceil(sv)+-1, floor(position)+-1, half, 2^20, 2^40, ...} is executed once (depth 1); (b) round trips: every sequence of the same operations by one user on two banks up to the depth bound with no clock or price action; (c) stale banks: from roots with accrued share values, the risk admin being a borrower, and banks in token-less repayment mode, every sequence up to depth 2/3 with one 30-day clock advance, positions valued at the share values of the bank brought up to date by the real accrue instruction; on every committed step the user's token balance change plus exact position value change must not exceed a few ulps",
+        "(a) sweep: from forged-share-value roots (1, 1+ulp, 4/3, 0.37, 255.9, ...) in worlds with 0/6/8/9/18-decimal mints and three transfer-fee settings, every deposit/withdraw/withdraw_all/borrow/repay/repay_all with amounts {1,2,3, k*ceil(sv)+-1, floor(position)+-1, half, 2^20, 2^40, ...} is executed once (depth 1); (b) round trips: every sequence of the same operations by one user on two banks up to the depth bound with no clock or price action; (c) stale banks: from roots with accrued share values, the risk admin being a borrower, and banks in token-less repayment mode, every sequence up to depth 3/4 with one 30-day clock advance, positions valued at the share values of the bank brought up to date by the real accrue instruction; on every committed step the user's token balance change plus exact position value change must not exceed a few ulps",
         vec!["environment model E1 (svm-lite)".into(), "sweep roots forge share values while no shares exist (consistent books); listed as forged".into()],
         &["sv1", "sv1ulp", "sv4_3", "sv037", "sv255"],
     )
